@@ -653,11 +653,14 @@ class FieldLoad:
     """every load of (param + const offset) inside the function; hypotheses are applied to all of them together"""
     together = True
 
-    def __init__(self, param, off, name, size=None):
-        self.param, self.off, self.name, self.size = param, off, name, size
+    def __init__(self, param, off, name, size=None, nth=None):
+        self.param, self.off, self.name, self.size, self.nth = param, off, name, size, nth
 
     def sites(self, U, fname):
-        return [('load %s#%d' % (self.name, k), i) for k, i in enumerate(U.field_loads(fname, self.param, self.off, self.size))]
+        r = [('load %s#%d' % (self.name, k), i) for k, i in enumerate(U.field_loads(fname, self.param, self.off, self.size))]
+        if self.nth is not None:
+            r = r[self.nth:self.nth + 1]
+        return r
 
     def __str__(self):
         return 'load of ' + self.name
